@@ -197,6 +197,29 @@ def check_unstructured(viol):
     return n
 
 
+def check_constructor_purity(viol):
+    """building a grid must not change the arrays it is built from: the same call twice gives the same grid (C14: the index-to-coordinate
+    mapping of a grid is a function of the constructor arguments)"""
+    n = 0
+    for dtype in (float, int):
+        for inc in ((False,), (True, False), (False, False), (False, True, False)):
+            n += 1
+            axes = [np.array([0, 1, 3, 4][: 3 + (k % 2)], dtype=dtype) + 5 * k for k in range(len(inc))]
+            axes = [a if up else np.ascontiguousarray(a[::-1]) for a, up in zip(axes, inc)]
+            before = [a.copy() for a in axes]
+            g1 = RectilinearGrid(axes)
+            changed = [k for k, (a, b) in enumerate(zip(axes, before)) if not np.array_equal(a, b)]
+            g2 = RectilinearGrid(axes)
+            if changed:
+                viol.append(f"RectilinearGrid(axes) reversed the caller's array of axis {changed[0]} in place (dtype {np.dtype(dtype).name}, decreasing axis): "
+                            f"a second grid built from the same arrays has axes_increase={list(map(bool, g2.axes_increase))} instead of {list(map(bool, g1.axes_increase))}")
+                return n
+            if list(g1.axes_increase) != list(g2.axes_increase) or not g1 == g2:
+                viol.append(f"two RectilinearGrids built from the same arrays differ (dtype {np.dtype(dtype).name}, increase={inc})")
+                return n
+    return n
+
+
 def main():
     thorough = "--tier" in sys.argv and sys.argv[sys.argv.index("--tier") + 1] == "thorough"
     viol, n, known = [], 0, []
@@ -228,6 +251,8 @@ def main():
             break
     if not viol:
         n += check_unstructured(viol)
+    if not viol:
+        n += check_constructor_purity(viol)
     res = {"evaluations": n, "distinct_nontrivial": n, "violations": [{"case": v} for v in viol[:3]],
            "rule": "all layouts (order, axes_reversed, per-axis direction, location) of uniform and rectilinear grids over the listed dims; ordered layout pairs through a real link (every 7th pair for 3-D in the quick tier); distinct = (kind, dims, layout[, layout])",
            "bound": f"dims {dimsets}", "exhaustive": thorough}
